@@ -125,10 +125,10 @@ Definition req_wf (q : request) : Prop :=
 
 Definition k_ok (d : db) (k : kont) : Prop :=
   match k with
-  | KReadP_to _ p cmd => prec d p /\ up_id cmd = p_id p
-  | KCreate_to _ _ _ p cmd => prec d p /\ up_id cmd = p_id p
+  | KReadP_to _ p cmd => prec d p /\ up_id cmd = p_id p /\ final_state (up_state cmd) = true
+  | KCreate_to _ _ _ p cmd => prec d p /\ up_id cmd = p_id p /\ final_state (up_state cmd) = true
   | KComplete r => user_state (cmr_state r) = true
-  | KComplete_up r p cmd _ => prec d p /\ up_id cmd = p_id p /\ user_state (cmr_state r) = true
+  | KComplete_up r p cmd _ => prec d p /\ up_id cmd = p_id p /\ user_state (cmr_state r) = true /\ final_state (up_state cmd) = true
   | KCallback_ins p _ => prec d p
   | _ => True
   end.
@@ -255,21 +255,47 @@ Definition resp_promises (r : response) : list promise :=
 Definition resp_ok (d : db) (r : option response) : Prop :=
   match r with Some x => Forall (prec d) (resp_promises x) | None => True end.
 
+(* no read / create / complete / search answer shows a promise pending once the clock has reached its timeout
+   (except the answer 20100 to the create itself: DESIGN D12) *)
+Definition timed_bodies (r : response) : list promise :=
+  match r with
+  | RspPromise _ p => opt_list p
+  | RspPromiseTask _ p _ => opt_list p
+  | RspSearchP _ ps _ => ps
+  | _ => []
+  end.
+Definition resp_t (now : Z) (r : option response) : Prop :=
+  match r with
+  | Some x => status_of x = 20100 \/ Forall (fun p => p_state p = Pending -> now < p_timeout p) (timed_bodies x)
+  | None => True
+  end.
+
 Definition out_ok (d : db) (now : Z) (next : nat) (o : step_out) : Prop :=
-  Forall (sub_at d now) (o_subs o) /\ st_ok d (o_state o) /\ link_ok next o /\ resp_ok d (o_resp o).
+  Forall (sub_at d now) (o_subs o) /\ st_ok d (o_state o) /\ link_ok next o /\ resp_ok d (o_resp o) /\ resp_t now (o_resp o).
 
 Lemma out_wait_ok : forall d now next k s,
     sub_at d now s -> k_ok d k -> k_expects k s -> out_ok d now next (out_wait k next s).
 Proof.
   intros d now next k s Hs Hk He. unfold out_ok, out_wait, link_ok; cbn. split; [repeat constructor; exact Hs|].
-  split; [exact Hk|]. split; [|exact I]. split; [lia|]. exists s. rewrite Nat.sub_diag. cbn. split; [reflexivity|exact He].
+  split; [exact Hk|]. split; [|split; exact I]. split; [lia|]. exists s. rewrite Nat.sub_diag. cbn. split; [reflexivity|exact He].
 Qed.
 
-Lemma out_fin_ok : forall d now next r, Forall (prec d) (resp_promises r) -> out_ok d now next (out_fin r).
-Proof. intros. unfold out_ok, out_fin, link_ok; cbn. split; [constructor|split; [exact I|split; [exact I|assumption]]]. Qed.
+Lemma out_fin_ok : forall d now next r,
+    Forall (prec d) (resp_promises r) ->
+    (status_of r = 20100 \/ Forall (fun p => p_state p = Pending -> now < p_timeout p) (timed_bodies r)) ->
+    out_ok d now next (out_fin r).
+Proof. intros. unfold out_ok, out_fin, link_ok; cbn. split; [constructor|split; [exact I|split; [exact I|split; assumption]]]. Qed.
 
-Lemma out_fin_nil : forall d now next r, resp_promises r = [] -> out_ok d now next (out_fin r).
-Proof. intros d now next r E. apply out_fin_ok. rewrite E. constructor. Qed.
+Lemma out_fin_nil : forall d now next r, resp_promises r = [] -> timed_bodies r = [] -> out_ok d now next (out_fin r).
+Proof. intros d now next r E E2. apply out_fin_ok; [rewrite E; constructor|right; rewrite E2; constructor]. Qed.
+
+Lemma not_overdue : forall now p, overdue now p = false -> p_state p = Pending -> now < p_timeout p.
+Proof.
+  intros now p H Hp. unfold overdue in H. rewrite Hp in H. cbn in H. apply Z.leb_gt in H. exact H.
+Qed.
+
+Lemma merged_not_pending : forall p cmd, final_state (up_state cmd) = true -> p_state (merged p cmd) = Pending -> False.
+Proof. intros p cmd Hf H. cbn in H. apply (final_not_pending _ Hf). exact H. Qed.
 
 (* ---------- facts a coroutine learns from a delivered completion ---------- *)
 
@@ -296,8 +322,15 @@ Proof. intros d now cmd H. cbn. split; [repeat constructor; cbn; auto|left; eaut
 (* a store submission whose commands are all listed explicitly and contain no UpdatePromise *)
 Ltac sub_store := cbn; split; [repeat constructor; auto | right; repeat constructor].
 Ltac wait_ok := apply out_wait_ok; [sub_store | cbn; auto | cbn; eauto].
-Ltac fin := first [apply out_fin_nil; reflexivity | (apply out_fin_ok; cbn; repeat constructor; auto; fail)].
-Ltac fin1 := apply out_fin_ok; cbn; repeat constructor; auto.
+Ltac timed :=
+  first [ left; reflexivity
+        | right; cbn; repeat constructor; intros;
+          first [ eapply not_overdue; eassumption
+                | exfalso; eapply merged_not_pending; eassumption
+                | match goal with E : (p_state ?p =? Pending) = false, H : p_state ?p = Pending |- _ =>
+                    rewrite H in E; cbn in E; discriminate end ] ].
+Ltac fin := first [apply out_fin_nil; reflexivity | (apply out_fin_ok; [cbn; repeat constructor; auto | timed]; fail)].
+Ltac fin1 := apply out_fin_ok; [cbn; repeat constructor; auto | timed].
 
 Lemma start_req_ok : forall d q now next, req_wf q -> out_ok d now next (start_req q now next).
 Proof.
@@ -355,13 +388,13 @@ Section Resume.
     destruct (one_promise c) as [[p|]|] eqn:E; try fin.
     destruct (read_fact d id c p Hr E) as [Hp Hid].
     destruct (overdue now p) eqn:Eo; [|fin].
-    apply out_wait_ok; [apply completion_txn_at; apply timeout_cmd_ok; assumption|cbn; tauto|cbn; eauto].
+    apply out_wait_ok; [apply completion_txn_at; apply timeout_cmd_ok; assumption|cbn; repeat split; auto; apply timedout_state_final|cbn; eauto].
   Qed.
 
   Lemma r_KReadP_to : forall id p cmd s c, k_ok d (KReadP_to id p cmd) -> k_expects (KReadP_to id p cmd) s -> rdy_ok d s c ->
                                            out_ok d now next (resume_seq cfg (KReadP_to id p cmd) c now next).
   Proof.
-    intros id p cmd s c [Hp Hid] [t He] Hr. subst s. cbn. destruct (one_alter c) as [n|] eqn:Eo; [|fin].
+    intros id p cmd s c [Hp [Hid Hfin]] [t He] Hr. subst s. cbn. destruct (one_alter c) as [n|] eqn:Eo; [|fin].
     destruct (n =? 1) eqn:En; [|exact (start_req_ok d (QReadPromise id) now next I)].
     apply Z.eqb_eq in En. fin1. apply merged_prec; auto. eapply alter_fact; eassumption.
   Qed.
@@ -373,7 +406,7 @@ Section Resume.
     destruct (one_promise c) as [[p|]|] eqn:E; try fin.
     - destruct (read_fact d _ c p Hr E) as [Hp Hid].
       destruct (overdue now p) eqn:Eo; [|destruct wt; fin].
-      apply out_wait_ok; [apply completion_txn_at; apply timeout_cmd_ok; assumption|cbn; tauto|cbn; eauto].
+      apply out_wait_ok; [apply completion_txn_at; apply timeout_cmd_ok; assumption|cbn; repeat split; auto; apply timedout_state_final|cbn; eauto].
     - apply out_wait_ok; cbn; auto.
   Qed.
 
@@ -426,7 +459,7 @@ Section Resume.
   Lemma r_KCreate_to : forall r tc wt p cmd s c, k_ok d (KCreate_to r tc wt p cmd) -> k_expects (KCreate_to r tc wt p cmd) s ->
                                                  rdy_ok d s c -> out_ok d now next (resume_seq cfg (KCreate_to r tc wt p cmd) c now next).
   Proof.
-    intros r tc wt p cmd s c [Hp Hid] [t He] Hr. subst s. cbn. destruct (one_alter c) as [n|] eqn:Eo; [|fin].
+    intros r tc wt p cmd s c [Hp [Hid Hfin]] [t He] Hr. subst s. cbn. destruct (one_alter c) as [n|] eqn:Eo; [|fin].
     destruct (n =? 1) eqn:En; [|apply req_of_create_ok]. apply Z.eqb_eq in En.
     assert (Hm : prec d (merged p cmd)) by (apply merged_prec; auto; eapply alter_fact; eassumption).
     destruct wt; fin.
@@ -440,10 +473,10 @@ Section Resume.
     destruct (read_fact d _ c p Hr E) as [Hp Hid].
     destruct (p_state p =? Pending) eqn:Es; [|fin].
     destruct (now <? p_timeout p) eqn:Et.
-    - apply out_wait_ok; [|cbn; repeat split; auto|cbn; eauto]. apply completion_txn_at.
+    - apply out_wait_ok; [|cbn; repeat split; auto; apply user_state_final; exact Hk|cbn; eauto]. apply completion_txn_at.
       destruct Hp as [q [Hq [C _]]]. destruct C as (a&b&c0&e&f&g&h). exists q. split; [exact Hq|]. split; [cbn; congruence|].
       right. cbn. apply Z.ltb_lt in Et. rewrite <- e. split; [exact Et|split; [lia|exact Hk]].
-    - apply out_wait_ok; [|cbn; repeat split; auto|cbn; eauto]. apply completion_txn_at.
+    - apply out_wait_ok; [|cbn; repeat split; auto; apply timedout_state_final|cbn; eauto]. apply completion_txn_at.
       destruct Hp as [q [Hq [C _]]]. destruct C as (a&b&c0&e&f&g&h). exists q. split; [exact Hq|]. split; [cbn; congruence|].
       left. cbn. apply Z.ltb_ge in Et. rewrite <- e, <- g. tauto.
   Qed.
@@ -451,7 +484,7 @@ Section Resume.
   Lemma r_KComplete_up : forall r p cmd st s c, k_ok d (KComplete_up r p cmd st) -> k_expects (KComplete_up r p cmd st) s ->
                                                rdy_ok d s c -> out_ok d now next (resume_seq cfg (KComplete_up r p cmd st) c now next).
   Proof.
-    intros r p cmd st s c [Hp [Hid Hu]] [t He] Hr. subst s. cbn. destruct (one_alter c) as [n|] eqn:Eo; [|fin].
+    intros r p cmd st s c [Hp [Hid [Hu Hfin]]] [t He] Hr. subst s. cbn. destruct (one_alter c) as [n|] eqn:Eo; [|fin].
     destruct (n =? 1) eqn:En; [|exact (start_req_ok d (QCompletePromise r) now next Hu)].
     apply Z.eqb_eq in En. fin1. apply merged_prec; auto. eapply alter_fact; eassumption.
   Qed.
@@ -479,7 +512,7 @@ Section Resume.
   Proof.
     intros t s c He Hr. cbn in He. subst s. cbn. destruct c; try fin. destruct rs as [|x rs]; [fin|]. destruct x; try fin.
     cbn in Hr. inversion Hr as [|? ? ? ? Hhd Htl]; subst. cbn in Hhd.
-    apply out_fin_ok. cbn. apply Forall_app. split.
+    apply out_fin_ok; [|right; constructor]. cbn. apply Forall_app. split.
     - destruct recs as [|x recs]; cbn; [constructor|]. inversion Hhd; subst. constructor; [tauto|constructor].
     - destruct (String.eqb (m_type (t_mesg t)) "resume"); cbn; [|constructor].
       destruct rs as [|y rs]; cbn; [constructor|]. destruct y; cbn; try constructor.
@@ -573,8 +606,12 @@ Section Resume2.
     destruct c; try fin. destruct rs as [|x rs]; [fin|]. destruct x; try fin.
     cbn in Hr. inversion Hr; subst. cbn in H2.
     destruct (filter (overdue now) recs) as [|p od] eqn:Ef.
-    { apply out_fin_ok. cbn. apply Forall_forall. intros x Hx. apply in_map_iff in Hx. destruct Hx as [y [<- Hy]].
-      apply prec_unsorted. eapply Forall_forall in H2; eassumption. }
+    { apply out_fin_ok.
+      - cbn. apply Forall_forall. intros x Hx. apply in_map_iff in Hx. destruct Hx as [y [<- Hy]].
+        apply prec_unsorted. eapply Forall_forall in H2; eassumption.
+      - right. cbn. apply Forall_forall. intros x Hx Hpend. apply in_map_iff in Hx. destruct Hx as [y [<- Hy]]. cbn in *.
+        apply not_overdue; [|exact Hpend]. destruct (overdue now y) eqn:Eo; [|reflexivity]. exfalso.
+        assert (Hin : In y (filter (overdue now) recs)) by (apply filter_In; tauto). rewrite Ef in Hin. exact Hin. }
     assert (Hod : Forall (fun p => prec d p /\ overdue now p = true) (p :: od)).
     { rewrite <- Ef. apply Forall_forall. intros x Hx. apply filter_In in Hx. destruct Hx as [Hx Ho]. split; [|exact Ho].
       eapply Forall_forall in H2; eassumption. }
@@ -723,12 +760,12 @@ Proof.
   - destruct (await_in_order true sl); cbn; try (unfold out_ok, link_ok; cbn; repeat split; auto; fail).
     unfold out_ok, link_ok; cbn. split; [apply Forall_app; split; [assumption|]|].
     { constructor; [|constructor]. sub_store. }
-    split; [exact I|]. split; [|exact I]. split; [lia|]. eexists. split; [apply nth_error_app_len; lia|reflexivity].
+    split; [exact I|]. split; [|split; exact I]. split; [lia|]. eexists. split; [apply nth_error_app_len; lia|reflexivity].
   - destruct (await_in_order false sl); cbn; unfold out_ok, link_ok; cbn; repeat split; auto.
   - destruct (await_in_order false sl); cbn; unfold out_ok, link_ok; cbn; repeat split; auto.
   - destruct (await_in_order false sl); cbn; try (unfold out_ok, link_ok; cbn; repeat split; auto; fail).
     destruct (pre ++ enq_final ts now0 exp sl)%list eqn:E; cbn; unfold out_ok, link_ok; cbn; [repeat split; auto|].
-    split; [|split; [exact I|split; [|exact I]]].
+    split; [|split; [exact I|split; [|split; exact I]]].
     + apply Forall_app; split; [assumption|]. constructor; [|constructor]. rewrite <- E.
       assert (Hall : Forall cmd_any (pre ++ enq_final ts now0 exp sl)%list) by (apply Forall_app; split; [exact Hk|apply enq_final_any]).
       cbn. split; [apply Forall_any_at; exact Hall|right; apply any_no_up; exact Hall].
